@@ -677,15 +677,17 @@ Fixpoint guided (hint : list nat) (k : nat) (c : cstate) (acc : cstate -> bool) 
   match hint with
   | [] => settle 200 (all_threads c) k c (fun _ c1 => acc (finish_all c1))
   | i :: r =>
-    let go c0 :=
-      settle 200 (all_threads c0) k c0 (fun k1 c1 =>
+    (* the pending unlocked actions first (a reply is read before a waiting forced state or refused
+       teardown gets the mutex), then the sections that leave no mark: now, or not before later *)
+    settle 200 (all_threads c) k c (fun k1 c0 =>
+      let go c1 :=
         let c1 := run_silent 16 c1 i in
         if enabled c1 i && negb (next_silent c1 i) then
           settle 200 (all_threads c1) k1 (cstep env_events api_bodyful c1 i) (fun k2 c2 =>
             settle 200 (all_threads c2) k2 (cstep env_events api_bodyful c2 i) (fun k3 c3 =>
               guided r k3 (cstep env_events api_bodyful c3 i) acc))
-        else false) in
-    if existsb (next_invisible c) (all_threads c) then go (drain_invisible c) || go c else go c
+        else false in
+      if existsb (next_invisible c0) (all_threads c0) then go (drain_invisible c0) || go c0 else go c0)
   end.
 
 (* The same guided search with long postponements: a goroutine that is about to run an unlocked
@@ -719,16 +721,16 @@ Fixpoint guidedF (hint : list nat) (k : nat) (fr : list nat) (c : cstate) (acc :
   match hint with
   | [] => settleF 200 (all_threads c) k fr c (fun _ _ c1 => acc (finish_all c1))
   | i :: r =>
-    let go c0 :=
-      settleF 200 (all_threads c0) k fr c0 (fun k1 fr1 c1 =>
+    settleF 200 (all_threads c) k fr c (fun k1 fr1 c0 =>
+      let go c1 :=
         let c1 := run_silent 16 c1 i in
         let fr1 := delnat i fr1 in
         if enabled c1 i && negb (next_silent c1 i) then
           settleF 200 (all_threads c1) k1 fr1 (cstep env_events api_bodyful c1 i) (fun k2 fr2 c2 =>
             settleF 200 (all_threads c2) k2 fr2 (cstep env_events api_bodyful c2 i) (fun k3 fr3 c3 =>
               guidedF r k3 fr3 (cstep env_events api_bodyful c3 i) acc))
-        else false) in
-    if existsb (next_invisible c) (all_threads c) then go (drain_invisible c) || go c else go c
+        else false in
+      if existsb (next_invisible c0) (all_threads c0) then go (drain_invisible c0) || go c0 else go c0)
   end.
 
 Definition corr_conc st0 o ths (macro micro : list N) (log : list litem) final listed : bool :=
